@@ -15,17 +15,18 @@ for sid in sorted(res):
     title = re.sub(r'\s+', ' ', title)[:110].replace('|', '/')
     files = sorted(set(re.findall(r'^\+\+\+ b/(\S+)', open(d + '/patch.diff', errors='replace').read(), re.M)))
     own = sid.split('-')[0]
-    det = sorted(p for p, v in res[sid].items() if v['exit'] == 1)
-    brk = sorted(p for p, v in res[sid].items() if v['exit'] == 2)
+    det = sorted(p for p, v in res[sid].items() if v['exit'] == 1 and '@' not in p)
+    det_t = sorted(p.split('@')[0] for p, v in res[sid].items() if v['exit'] == 1 and '@' in p and p.split('@')[0] not in det)
+    brk = sorted(p for p, v in res[sid].items() if v['exit'] == 2 and '@' not in p)
     rules = []
-    for p in ([own] if own in det else det[:1]):
+    for p in ([own] if own in det else ([own + '@thorough'] if own in det_t else det[:1])):
         for r in res[sid][p]['rules'][:1]:
             m = re.match(r'rule (\S+) at (\S+)', r)
             if m: rules.append('%s:%s @ %s' % (p, m.group(1), m.group(2)))
-    rows.append((sid, title, ','.join(f.replace('src/', '') for f in files), 'yes' if own in det else ('exit 2' if own in brk else 'NO'), ' '.join(det) or '-', '; '.join(rules)))
+    rows.append((sid, title, ','.join(f.replace('src/', '') for f in files), 'yes' if own in det else ('yes (thorough tier)' if own in det_t else ('exit 2' if own in brk else 'NO')), ' '.join(det + [x + '(thorough)' for x in det_t]) or '-', '; '.join(rules)))
 out = ['| id | change (from the sub-agent\'s notes) | files | own property fires | all checks that report it | first report of the owning (or first) check |', '|---|---|---|---|---|---|']
 for r in rows: out.append('| ' + ' | '.join(r) + ' |')
-n = len(rows); own_yes = sum(1 for r in rows if r[3] == 'yes'); anyd = sum(1 for r in rows if r[4] != '-')
+n = len(rows); own_yes = sum(1 for r in rows if r[3].startswith('yes')); anyd = sum(1 for r in rows if r[4] != '-')
 out.append('')
 out.append('%d confirmed seeded changes; %d reported by the check of the property they were written against, %d reported by at least one check.' % (n, own_yes, anyd))
 eq = V + '/selftest/equivalents/RESULTS.json'
@@ -35,6 +36,7 @@ if os.path.exists(eq):
     out.append('| behaviour-preserving edit | checks silent (exit 0) | false alarms | exit 2 |')
     out.append('|---|---|---|---|')
     for k in sorted(e):
+        e[k] = {p_: v_ for p_, v_ in e[k].items() if '@' not in p_}
         if not os.path.exists(V + '/selftest/equivalents/' + k + '.diff'): continue
         out.append('| %s | %d | %s | %s |' % (k, sum(1 for v in e[k].values() if v['exit'] == 0), ' '.join(sorted(p for p, v in e[k].items() if v['exit'] == 1)) or '-',
                                              ' '.join(sorted(p for p, v in e[k].items() if v['exit'] == 2)) or '-'))
